@@ -1,6 +1,7 @@
 /- Kanata-level cases (`KANX …` lines written by harness/src/kan.rs): parser, runner, printer. -/
 import KVerif.Drv.Lay
 import KVerif.Model.Kanata
+import KVerif.Model.KanataV2  -- chv2
 namespace KVerif.Drv.Kan
 open KVerif.L KVerif.K KVerif.Drv KVerif.Drv.Cfg
 
@@ -59,6 +60,7 @@ structure Case where
   dbg : Bool
   k : Option KState
   unsupported : Option String := none
+  chv2 : Option ChV2Cfg := none     -- chv2: the `defchordsv2` table (section `CHV2 …` after the kanata state)
   hist : List KEv
 
 def khist : P (List KEv) := do
@@ -100,7 +102,10 @@ def case (tag : String) : P Case := do
     return { dbg := dbg == 1, k := none, unsupported := some why, hist := ← khist }
   | _ => do
     let k ← kstate
-    return { dbg := dbg == 1, k := some k, hist := ← khist }
+    let v2 ← match (← peek?) with   -- chv2
+      | some "CHV2" => do pure (some (← chv2Cfg))
+      | _ => pure none
+    return { dbg := dbg == 1, k := some k, chv2 := v2, hist := ← khist }
 
 def fmtOs : Os → String
   | .down k => s!"d{k}"
@@ -120,6 +125,8 @@ def crashName : K.Crash → String
 
 structure Run where
   k : KState
+  chv2 : Option ChV2 := none   -- chv2: chords-v2 state of `k.layout` (Model/KanataV2.lean)
+  risk : Bool := false         -- chv2: the one-shot list was full at some point (path not mirrored)
   vt : Nat := 0
   msElapsed : Nat := 0
   out : Array String := #[]
@@ -132,12 +139,41 @@ def collectTag (tag : String) (r : Run) : Run :=
 
 def collect (r : Run) : Run := collectTag "" r
 
+-- chv2 begin: the run steps through the `…V2` functions (equal to the originals without chords v2)
+def Run.s (r : Run) : KV2 := { k := r.k, chv2 := r.chv2 }
+def Run.set (r : Run) (s : KV2) : Run := { r with k := s.k, chv2 := s.chv2, risk := r.risk || s.evictRisk }
+def Run.digest (r : Run) : String := Lay.digestFull r.s.lv
+def Case.run0 (c : Case) (k : KState) : Run := { k, chv2 := c.chv2.map fun cfg => { cfg } }
+-- without chords v2 the run goes through the ORIGINAL functions of Model/Kanata.lean (the ones the
+-- C01/C07/C14/C18 theorems are about), with chords v2 through their twins of Model/KanataV2.lean
+def stepTick (s : KV2) : Except K.Crash KV2 :=
+  match s.chv2 with
+  | none => match tickStates s.k with | .error c => .error c | .ok k => .ok { k }
+  | some _ => tickStatesV2 s
+def stepInput (s : KV2) (i : Input) : Except K.Crash KV2 :=
+  match s.chv2 with
+  | none => match handleInputEvent s.k i with | .error c => .error c | .ok k => .ok { k }
+  | some _ => handleInputEventV2 s i
+def stepCanBlock (s : KV2) (ms : Nat) : KV2 × Bool :=
+  match s.chv2 with
+  | none => let (k, b) := canBlockUpdateIdleWaiting s.k ms; ({ k }, b)
+  | some _ => canBlockV2 s ms
+def stepFake (s : KV2) (a : FkAction) (c : Coord) : Except L.Crash KV2 :=
+  match s.chv2 with
+  | none => match fakeKeyAction s.k.layout a c with | .error e => .error e | .ok l => .ok { k := { s.k with layout := l } }
+  | some _ => fakeKeyActionV2 s a c
+def stepIsIdle (s : KV2) : Bool :=
+  match s.chv2 with
+  | none => isIdle s.k
+  | some _ => isIdleV2 s
+-- chv2 end
+
 def doTick (dbg : Bool) (r : Run) : Except K.Crash Run :=
-  match tickStates r.k with
+  match stepTick r.s with
   | .error c => .error c
-  | .ok k =>
-    let r := collect { r with k, vt := r.vt + 1 }
-    .ok (if dbg then { r with out := r.out.push s!"#{r.vt} {Lay.digest r.k.layout}" } else r)
+  | .ok s =>
+    let r := collect { r.set s with vt := r.vt + 1 }
+    .ok (if dbg then { r with out := r.out.push s!"#{r.vt} {r.digest}" } else r)
 
 def ticksN (dbg : Bool) : Nat → Run → Except K.Crash Run
   | 0, r => .ok r
@@ -146,16 +182,13 @@ def ticksN (dbg : Bool) : Nat → Run → Except K.Crash Run
     | .ok r => ticksN dbg n r
 
 def doInput (r : Run) (i : Input) : Except K.Crash Run :=
-  match handleInputEvent r.k i with
+  match stepInput r.s i with
   | .error c => .error c
-  | .ok k => .ok (collectTag (match i with | .rep _ => "R" | _ => "") { r with k })
+  | .ok s => .ok (collectTag (match i with | .rep _ => "R" | _ => "") (r.set s))
 
 /-- what one more tick would change although kanata says it may block (empty = quiescent);
 ageing counters (history ages) are not differences -/
-def nonQuiescent (k : KState) : List String :=
-  match tickStates k with
-  | .error _ => ["crash"]
-  | .ok k' =>
+def nonQuiescentOf (k k' : KState) : List String :=
     let l := k.layout
     let l' := k'.layout
     (if k'.out != k.out then ["os-output"] else []) ++
@@ -172,14 +205,32 @@ def nonQuiescent (k : KState) : List String :=
     (if k'.capsWord != k.capsWord then ["caps_word"] else []) ++
     (if k'.scroll != k.scroll || k'.hscroll != k.hscroll || k'.moveV != k.moveV || k'.moveH != k.moveH then ["mouse"] else [])
 
+def nonQuiescent (k : KState) : List String :=
+  match tickStates k with
+  | .error _ => ["crash"]
+  | .ok k' => nonQuiescentOf k k'
+
+/-- chv2: the same over the layout with chords v2 (queue, active chords, cool-down) -/
+def nonQuiescentV2 (s : KV2) : List String :=
+  match stepTick s with
+  | .error _ => ["crash"]
+  | .ok s' =>
+    nonQuiescentOf s.k s'.k ++
+    (match s.chv2, s'.chv2 with
+     | some c, some c' =>
+       (if c'.queue.map (·.ev) != c.queue.map (·.ev) then ["chv2_queue"] else []) ++
+       (if c'.active.length != c.active.length || !c.active.isEmpty then ["chv2_active"] else []) ++
+       (if c'.ticksToIgnore != c.ticksToIgnore then ["chv2_cooldown"] else [])
+     | _, _ => [])
+
 /-- `n` milliseconds of the processing loop without input -/
 def gapN : Nat → Run → Except K.Crash Run
   | 0, r => .ok r
   | n + 1, r =>
-    let (k, block) := canBlockUpdateIdleWaiting r.k r.msElapsed
-    let r := { r with k }
+    let (s, block) := stepCanBlock r.s r.msElapsed   -- chv2
+    let r := r.set s
     if block then
-      let nq := nonQuiescent k
+      let nq := nonQuiescentV2 s
       let r := if nq.isEmpty then r else { r with diag := r.diag ++ [s!"blocks at {r.vt} although a tick would change: {",".intercalate nq}"] }
       .ok { r with vt := r.vt + (n + 1) }
     else match doTick false r with
@@ -191,8 +242,8 @@ def gapN : Nat → Run → Except K.Crash Run
 def gapAlways : Nat → Run → Except K.Crash Run
   | 0, r => .ok r
   | n + 1, r =>
-    let (k, _) := canBlockUpdateIdleWaiting r.k r.msElapsed
-    match doTick false { r with k } with
+    let (s, _) := stepCanBlock r.s r.msElapsed   -- chv2
+    match doTick false (r.set s) with
     | .error c => .error c
     | .ok r => gapAlways n { r with msElapsed := 1 }
 
@@ -212,9 +263,9 @@ def runHist (dbg loopMode alwaysTick : Bool) : List KEv → Run → Except K.Cra
       | .rep y => doInput r (.rep y)
       | .tap y => doInput r (.tap y)
       | .fake a c =>
-        match fakeKeyAction r.k.layout a c with
+        match stepFake r.s a c with   -- chv2
         | .error e => .error (.layout e)
-        | .ok l => .ok { r with k := { r.k with layout := l } }
+        | .ok s => .ok (r.set s)
       | .tick n => ticksN dbg n r
       | .gap n => if loopMode && !alwaysTick then gapN n r else if loopMode then gapAlways n r else ticksN false n r
     match step with
@@ -224,8 +275,9 @@ def runHist (dbg loopMode alwaysTick : Bool) : List KEv → Run → Except K.Cra
 def isLoop (h : List KEv) : Bool := h.any fun e => match e with | .gap _ => true | _ => false
 
 def finish (r : Run) (withDigest : Bool) : String :=
-  let out := r.out.push s!"I idle={if isIdle r.k then 1 else 0}"
-  let out := if withDigest then out.push s!"D {Lay.digest r.k.layout}" else out
+  if r.risk then "unsupported oneshot-evict-chv2" else   -- chv2
+  let out := r.out.push s!"I idle={if stepIsIdle r.s then 1 else 0}"
+  let out := if withDigest then out.push s!"D {r.digest}" else out
   " ".intercalate out.toList
 
 def modelOut (c : Case) : String :=
@@ -236,11 +288,12 @@ def modelOut (c : Case) : String :=
   | none => "rej"
   | some k =>
     let lm := isLoop c.hist
-    match runHist c.dbg lm false c.hist { k } with
+    match runHist c.dbg lm false c.hist (c.run0 k) with
     | .error e => s!"crash {crashName e}"
     | .ok r =>
+      if r.risk then finish r true else   -- chv2
       if lm then
-        match runHist false true true c.hist { k } with
+        match runHist false true true c.hist (c.run0 k) with
         | .error e => s!"{finish r true} || STEP crash {crashName e}"
         | .ok r2 => s!"{finish r true} || STEP {finish r2 false}"
       else finish r true
